@@ -126,6 +126,30 @@ Definition snap_ok (c : lcase) (s : lsnap) : bool :=
        end) (ls_heap s)
   && forallb (absent_ok s) (lc_futs c).
 
+(* the part of [snap_ok] that only looks at the state (idx = position, heap order, no
+   duplicates, F0, burst_bounded, token bound); for streams whose snapshots may hold
+   futures that are not recorded individually *)
+Definition snap_state_ok (c : lcase) (s : lsnap) : bool :=
+  let h := snap_heap s in
+  idx_ok_from h (arr h) 0 && heap_ordered_b h && nodup_b (arr h)
+  && (0 <=? ls_watchers s) && (ls_watchers s <=? lc_maxw c)
+  && (0 <=? ls_tokens s) && (ls_tokens s <=? lc_wcap c)
+  && (match ls_heap s with [] => true | _ => 1 <=? ls_watchers s end).
+
+(* progress on a lock-held snapshot: the head of the queue has not been due for longer
+   than [bound].  By coverage (Properties/C13.v: C13_coverage, C13_due_head_progress) a state
+   with a due head always has an enabled worker label (a worker about to take the lock,
+   an expired or token-served sleeper, or a callback about to return); a head that stays
+   due for [bound] while every callback returns at once means that such a label stayed
+   enabled for [bound] without being taken - or that the state is not covered (a lost
+   wake-up).  Only used with bounds >= 100 x the quiet-system latency and after the
+   harness saw it persist over re-runs with a quiet machine. *)
+Definition snap_progress_ok (bound : Z) (s : lsnap) : bool :=
+  match ls_heap s with
+  | [] => true
+  | e :: _ => ls_t0 s <=? snd e + bound
+  end.
+
 Definition check_live (c : lcase) : bool :=
   forallb fut_ok (lc_futs c) && forallb (snap_ok c) (lc_snaps c)
   && nodup_b (map lf_id (lc_futs c)).
